@@ -24,6 +24,7 @@ def run():
         res.add_tlc("Eval: <= 3 leaves with two hint keys, every state replayed", t3)
         E.replay_dump("C06", dump3, res)
         dump3.unlink()
+    E.deep_validity(res, work, 3000 if thorough else 500)
     res.coverage["traces_validated_against_impl"] += res.coverage.get("ahb_evaluations", 0) + res.coverage.get("validity_checks", 0)
     res.coverage["exhaustive"] = not thorough
     res.coverage["rule"] = (f"every program <= {n} leaves x every RC assignment: requirement_constraint_evaluation raises the invalid-expression "
